@@ -1,10 +1,14 @@
 #!/bin/sh
-# tools/sweep.sh <tier> <seed>...   runs every registered check for each seed; prints one line per run
+# tools/sweep.sh <tier> <seed>...   runs every registered check (or $CHECKS) for each seed; prints one line per run
 tier=$1; shift
 cd "$(dirname "$0")/.."
+ids=${CHECKS:-$(python3 -c "import json;print(' '.join(c['property_id'] for c in json.load(open('MANIFEST.json'))['checks']))")}
 for seed in "$@"; do
-  for id in $(python3 -c "import json;print(' '.join(c['property_id'] for c in json.load(open('MANIFEST.json'))['checks']))"); do
-    out=$(VERIF_SEED=$seed ./check $id $tier 2>&1 | grep -v '^KNOWN-FINDING' | tail -1 | cut -c1-160)
-    echo "seed=$seed $id rc=$? :: $out"
+  for id in $ids; do
+    tmp=$(mktemp)
+    VERIF_SEED=$seed ./check $id $tier >"$tmp" 2>&1; rc=$?
+    out=$(grep -v '^KNOWN-FINDING' "$tmp" | tail -1 | cut -c1-160)
+    echo "seed=$seed $id rc=$rc :: $out"
+    rm -f "$tmp"
   done
 done
